@@ -212,11 +212,16 @@ func (g *G) op(s *st, last bool) string {
 		add(10, func() string { return g.sortOp(s) })
 	}
 	add(5, func() string { return g.headTail(s) })
+	if g.nest == 0 && last {
+		// uniq only as the last operator of the program: `fork (=> pass => uniq)`
+		// never terminates (uniq answers its parent's end of stream with a last
+		// batch and then pulls the parent again, which a fork leg takes for the
+		// start of the next round), and uniq answers a done request with its
+		// pending value, which panics a fork or lateral scope downstream of it
+		// ("non-nil done batch").
+		add(6, func() string { return g.uniqOp(s) })
+	}
 	if g.nest == 0 {
-		// `fork (=> pass => uniq)` never terminates (uniq answers its parent's
-		// end of stream with a last batch and then pulls the parent again, which
-		// a fork leg takes for the start of the next round): uniq only at top level.
-		add(3, func() string { return g.uniqOp(s) })
 		// likewise `fork (=> fuse => pass) | merge a` (fuse is one-shot, merge
 		// re-pulls all its parents at end of stream)
 		add(3, func() string { return g.fuseOp(s) })
